@@ -11,6 +11,11 @@
 // kind of e: LConfigured when e mentions a configured limit (…Limits.MaxDecodeBytes, a
 // MaxDecodeBytes field, decodeLimit(ctx), or is a parameter of the enclosing function, i.e. limit
 // plumbing); LDefault when it mentions DefaultMaxDecodeBytes.  Anything else: exit 1.
+// A limit expression that reads a struct field X.MaxDecodeBytes where X is not a Limits value (today:
+// l.osd.MaxDecodeBytes in LazyObjectStreamObject.GetData) is LField: the limit is whatever the
+// constructors of that struct stored.  Therefore every composite literal of type ObjectStreamDict is
+// listed in a second table osd_constructions, with the kind of the expression assigned to its
+// MaxDecodeBytes field (no such field in the literal: LDefault, since 0 selects the package default).
 // The two defaulting wrappers themselves (StreamDict.Decode / StreamDict.DecodeLength) are skipped.
 package main
 
@@ -35,7 +40,7 @@ func main() {
 	out := flag.String("out", "", "output .v")
 	flag.Parse()
 	fset := token.NewFileSet()
-	var sites []site
+	var sites, ctors []site
 	fail := func(f string, a ...any) { fmt.Fprintf(os.Stderr, "genc09: "+f+"\n", a...); os.Exit(1) }
 	root := filepath.Join(*repo, "pkg")
 	err := filepath.Walk(root, func(p string, info os.FileInfo, err error) error {
@@ -73,6 +78,29 @@ func main() {
 				}
 			}
 			ast.Inspect(fd.Body, func(n ast.Node) bool {
+				if cl, ok := n.(*ast.CompositeLit); ok && cl.Type != nil && strings.HasSuffix(src(fset, cl.Type), "ObjectStreamDict") {
+					kind := "LDefault"
+					for _, el := range cl.Elts {
+						kv, ok := el.(*ast.KeyValueExpr)
+						if !ok {
+							fail("%s: %s: positional ObjectStreamDict literal", rel, fname)
+						}
+						if src(fset, kv.Key) != "MaxDecodeBytes" {
+							continue
+						}
+						e := src(fset, kv.Value)
+						switch {
+						case strings.Contains(e, "DefaultMaxDecodeBytes"):
+							kind = "LDefault"
+						case strings.Contains(e, "MaxDecodeBytes") || strings.Contains(e, "decodeLimit("):
+							kind = "LConfigured"
+						default:
+							fail("%s: %s: cannot classify ObjectStreamDict.MaxDecodeBytes = %q", rel, fname, e)
+						}
+					}
+					ctors = append(ctors, site{rel, fname, "ObjectStreamDict{}", kind})
+					return true
+				}
 				ce, ok := n.(*ast.CallExpr)
 				if !ok {
 					return true
@@ -109,6 +137,8 @@ func main() {
 					switch {
 					case strings.Contains(e, "DefaultMaxDecodeBytes"):
 						kind = "LDefault"
+					case strings.HasSuffix(e, ".MaxDecodeBytes") && !strings.Contains(e, "Limits") && !strings.HasPrefix(e, "limits."):
+						kind = "LField"
 					case strings.Contains(e, "MaxDecodeBytes") || strings.Contains(e, "decodeLimit("):
 						kind = "LConfigured"
 					case isIdent && params[id.Name]:
@@ -129,16 +159,22 @@ func main() {
 	if len(sites) == 0 {
 		fail("no decode call site found under %s", root)
 	}
-	sort.Slice(sites, func(i, j int) bool {
-		a, b := sites[i], sites[j]
-		if a.file != b.file {
-			return a.file < b.file
-		}
-		if a.fn != b.fn {
-			return a.fn < b.fn
-		}
-		return a.call < b.call
-	})
+	if len(ctors) == 0 {
+		fail("no ObjectStreamDict composite literal found under %s", root)
+	}
+	for _, l := range [][]site{sites, ctors} {
+		l := l
+		sort.Slice(l, func(i, j int) bool {
+			a, b := l[i], l[j]
+			if a.file != b.file {
+				return a.file < b.file
+			}
+			if a.fn != b.fn {
+				return a.fn < b.fn
+			}
+			return a.call < b.call
+		})
+	}
 	var w bytes.Buffer
 	w.WriteString("(* GENERATED by go/cmd/genc09 from the pdfcpu sources — do not edit. *)\n")
 	w.WriteString("From Coq Require Import String List.\nFrom PV Require Import C09.Model.\nImport ListNotations.\nOpen Scope string_scope.\n\n")
@@ -146,6 +182,14 @@ func main() {
 	for i, s := range sites {
 		sep := ";"
 		if i == len(sites)-1 {
+			sep = ""
+		}
+		fmt.Fprintf(&w, "  mksite %q %q %q %s%s\n", s.file, s.fn, s.call, s.kind, sep)
+	}
+	w.WriteString("].\n\nDefinition osd_constructions : list site := [\n")
+	for i, s := range ctors {
+		sep := ";"
+		if i == len(ctors)-1 {
 			sep = ""
 		}
 		fmt.Fprintf(&w, "  mksite %q %q %q %s%s\n", s.file, s.fn, s.call, s.kind, sep)
